@@ -1,0 +1,10 @@
+//go:build !verif
+
+package astits
+
+// Verification hooks are compiled out: the branches guarded by verifHooks are dead code.
+const verifHooks = false
+
+func verifGet(size int) *bytesPoolItem { return nil }
+
+func verifPut(payload *bytesPoolItem) bool { return false }
